@@ -204,12 +204,12 @@ theorem sortMatches_sorted (cmt : List Int) (ms out : List RawMatch) (h : sortMa
 
 theorem assembleStep_lengths (a : Assembled) (p : Part × List RawMatch)
     (h : p.1.plain.length = p.1.charmap.length) (ha : a.plainTot.length = a.charmapTot.length) :
-    (assembleStep a p).plainTot.length = (assembleStep a p).charmapTot.length := by
-  simp [assembleStep, h, ha]
+    (assembleStepNB a p).plainTot.length = (assembleStepNB a p).charmapTot.length := by
+  simp [assembleStepNB, h, ha]
 
 theorem foldl_assemble_lengths (ps : List (Part × List RawMatch)) (a : Assembled)
     (h : ∀ p ∈ ps, p.1.plain.length = p.1.charmap.length) (ha : a.plainTot.length = a.charmapTot.length) :
-    (ps.foldl assembleStep a).plainTot.length = (ps.foldl assembleStep a).charmapTot.length := by
+    (ps.foldl assembleStepNB a).plainTot.length = (ps.foldl assembleStepNB a).charmapTot.length := by
   induction ps generalizing a with
   | nil => exact ha
   | cons p ps ih =>
@@ -220,18 +220,42 @@ theorem foldl_assemble_lengths (ps : List (Part × List RawMatch)) (a : Assemble
 
 /-- C14: text and map stay in lock step through the assembly -/
 theorem assemble_lengths (ps : List (Part × List RawMatch)) (h : ∀ p ∈ ps, p.1.plain.length = p.1.charmap.length) :
-    (assemble ps).plainTot.length = (assemble ps).charmapTot.length := by
+    (assembleNB ps).plainTot.length = (assembleNB ps).charmapTot.length := by
   exact foldl_assemble_lengths ps _ h rfl
 
 /-- C14: the offsets of the matches of the first part are unchanged, those of a later part are
     shifted by the length of everything before it (text plus the two-character delimiter) -/
 theorem assemble_append (ps : List (Part × List RawMatch)) (p : Part × List RawMatch) :
-    assemble (ps ++ [p]) =
-      { plainTot := (assemble ps).plainTot ++ p.1.plain ++ ['\n', '\n'],
-        charmapTot := ((assemble ps).charmapTot ++ p.1.charmap) ++
-          [(((assemble ps).charmapTot ++ p.1.charmap).getLast?).getD 0, (((assemble ps).charmapTot ++ p.1.charmap).getLast?).getD 0],
-        hits := (assemble ps).hits ++ p.2.map (fun m => { m with offset := m.offset + ((assemble ps).plainTot.length : Int) }) } := by
-  simp [assemble, List.foldl_append, assembleStep]
+    assembleNB (ps ++ [p]) =
+      { plainTot := (assembleNB ps).plainTot ++ p.1.plain ++ ['\n', '\n'],
+        charmapTot := ((assembleNB ps).charmapTot ++ p.1.charmap) ++
+          [(((assembleNB ps).charmapTot ++ p.1.charmap).getLast?).getD 0, (((assembleNB ps).charmapTot ++ p.1.charmap).getLast?).getD 0],
+        hits := (assembleNB ps).hits ++ p.2.map (fun m => { m with offset := m.offset + ((assembleNB ps).plainTot.length : Int) }) } := by
+  simp [assembleNB, List.foldl_append, assembleStepNB]
+
+/-! ### blank parts are not submitted (`if not plain.strip(): continue`) -/
+
+theorem foldl_assembleStep_filter (ps : List (Part × List RawMatch)) (a : Assembled) :
+    ps.foldl assembleStep a = (ps.filter (fun p => !isBlank p.1.plain)).foldl assembleStepNB a := by
+  induction ps generalizing a with
+  | nil => rfl
+  | cons p ps ih =>
+    by_cases hb : isBlank p.1.plain = true
+    · simp [List.foldl_cons, assembleStep, hb, ih]
+    · have hb' : isBlank p.1.plain = false := by simpa using hb
+      simp [List.foldl_cons, assembleStep, hb', ih]
+
+/-- C14: the loop over the parts is the assembly of the non-blank parts, in order -/
+theorem assemble_eq_filter (ps : List (Part × List RawMatch)) :
+    assemble ps = assembleNB (ps.filter (fun p => !isBlank p.1.plain)) := by
+  simp [assemble, assembleNB, foldl_assembleStep_filter]
+
+theorem assemble_nonblank (ps : List (Part × List RawMatch)) (h : ∀ p ∈ ps, isBlank p.1.plain = false) :
+    assemble ps = assembleNB ps := by
+  rw [assemble_eq_filter]
+  congr 1
+  apply List.filter_eq_self.mpr
+  intro p hp; simp [h p hp]
 
 /-! ### HTML escaping (C16) -/
 
